@@ -17,7 +17,7 @@ git checkout -q -- . 2>/dev/null
 git apply $out/patch.diff || { echo "patch does not apply"; exit 1; }
 build=$(go build ./... 2>&1 && echo BUILD_OK)
 mv test/$demo /tmp/$demo.keep
-suite=$(go test -vet=off -count=1 ./... 2>&1 | grep -v "no test files" | tr '\n' ' ')
+suite=$(go test -vet=off -count=1 ./... 2>&1 | grep -v "no test files" | tr '\n\t' '  ')
 mv /tmp/$demo.keep test/$demo
 run=$(grep -o 'func Test[A-Za-z0-9_]*' test/$demo | sed 's/func //' | paste -sd'|')
 with=$(go test -vet=off -count=1 -run "$run" ./test/ 2>&1 | tail -1)
